@@ -3,6 +3,7 @@ import Extracted.Guards
 import Extracted.Consts
 import Props.C10
 import Props.C18
+import Props.C09Audit
 
 /-! # C09 — no exported function panics or corrupts memory on untrusted input
 
@@ -155,6 +156,12 @@ theorem dkg_index_fits_byte (size : Int) (h : Extracted.Guards.crypto_newDKGComm
   simp [Extracted.Guards.crypto_newDKGCommon_g0] at h
   omega
 
+/-- **no index or slice expression has appeared or changed since the review**: the list regenerated from the
+    source on this run (every `x[i]` / `x[a:b]` on a slice, array or string whose bound can fail at run time, in the
+    three packages, `&x[0]` hand-overs apart) is the reviewed one. A new or edited index expression breaks this lemma
+    and sends the check into its boundary search -/
+theorem index_sites_exact : Extracted.Hazards.indexSites = Props.C09Audit.auditedIndexSites := by decide +kernel
+
 end Props.C09
 
 #print axioms Props.C09.covered_all
@@ -163,3 +170,4 @@ end Props.C09
 #print axioms Props.C09.nonempty_lists
 #print axioms Props.C09.index_guards
 #print axioms Props.C09.dkg_index_fits_byte
+#print axioms Props.C09.index_sites_exact
